@@ -28,6 +28,7 @@ def gate_tables(ctx):
     out = {}
     for gate, pre_state in (("READY", "NONE"), ("FINISHED", "WORKING")):
         single, pairs, locs = {}, {}, set()
+        foreign = {}
         cells = 0
 
         def run(preds):
@@ -52,6 +53,11 @@ def gate_tables(ctx):
                 if ex is not None and ex[0] == "raise":
                     continue
                 total += 1
+                # every collection the gate iterates is part of the model (task_list, the task's input_task_list): a loop
+                # the interpreter had to summarise runs over something else -- a copy or cache of the dependencies
+                for e in flatten(st.trace):
+                    if isinstance(e, Loop):
+                        foreign.setdefault((e.func.qualname, e.loc), (e.iter_text, repr(e.coll)))
                 ss = [e for e in stores_of(st.trace, attr="state") if isinstance(e.recv, Obj) and e.recv.name == "T"]
                 good = [e for e in ss if isinstance(e.value, EnumSet) and e.value.single() == gate]
                 for e in good:
@@ -73,7 +79,7 @@ def gate_tables(ctx):
             for b in combos:
                 pairs[(a, b)] = run([a, b])
                 cells += 1
-        out[gate] = {"single": single, "pairs": pairs, "store_locs": sorted(locs), "cells": cells, "empty": base}
+        out[gate] = {"single": single, "pairs": pairs, "store_locs": sorted(locs), "cells": cells, "empty": base, "foreign": foreign}
     _CACHE[key] = out
     return out
 
